@@ -96,6 +96,8 @@ def gen_new(w, r, kinds=None):
         return None
     kind = r.choices(cands, weights=[wts.get(k, 1.0) for k in cands])[0]
     op = {"op": "new", "kind": kind, "label": w.fresh(kind)}
+    if kind != "ir" and r.random() < w.cfg.get("p_user_subclass", 0.04):
+        op["subclass"] = True
     if r.random() < w.cfg.get("p_explicit_uuid", 0.85):
         op["uuid"] = r.getrandbits(128)
     else:
